@@ -294,6 +294,20 @@ template <class TA, class TB, class MA, class MB, class BP, class MBP> static vo
     else if (P.mode == 3) { Spectra::SymGEigsShiftSolver<SI, BP, GEigsMode::Buckling> s(op, Bop, P.nev, P.ncv, P.sigma); lib_run(s, "SymGEigsShiftSolver<Buckling>/" + tag, P, calls, c); }
     else { Spectra::SymGEigsShiftSolver<SI, BP, GEigsMode::Cayley> s(op, Bop, P.nev, P.ncv, P.sigma); lib_run(s, "SymGEigsShiftSolver<Cayley>/" + tag, P, calls, c); }
 }
+// mixed triangle options: only the designated triangle of each matrix is meaningful, the other one holds garbage; the oracle
+// (residual / Gram predicates in `drive`) is evaluated against the true symmetric pencil P.A, P.B
+template <int UA, int UB> static void lib_shift_uplo(const Problem& P, const std::vector<Call>& calls, Ctx& c, Rng& r) {
+    Mat Ag = P.A, Bg = P.B; const int n = P.n;
+    for (int i = 0; i < n; i++) for (int j = 0; j < n; j++) { if (i == j) continue; const bool upper = j > i;
+        if ((UA == Eigen::Lower) == upper) Ag(i, j) = 1e3 * (1.0 + r.unit()) * (r.coin() ? 1 : -1);
+        if ((UB == Eigen::Lower) == upper) Bg(i, j) = 1e3 * (1.0 + r.unit()) * (r.coin() ? 1 : -1); }
+    using SI = Spectra::SymShiftInvert<double, Eigen::Dense, Eigen::Dense, UA, UB>; SI op(Ag, Bg);
+    const std::string tag = std::string("dense,dense,") + (UA == Eigen::Lower ? "Lower" : "Upper") + "," + (UB == Eigen::Lower ? "Lower" : "Upper");
+    if (P.mode == 3) { using BP = Spectra::DenseSymMatProd<double, UA>; BP Bop(Ag); Spectra::SymGEigsShiftSolver<SI, BP, GEigsMode::Buckling> s(op, Bop, P.nev, P.ncv, P.sigma); lib_run(s, "SymGEigsShiftSolver<Buckling>/" + tag, P, calls, c); }
+    else { using BP = Spectra::DenseSymMatProd<double, UB>; BP Bop(Bg);
+        if (P.mode == 2) { Spectra::SymGEigsShiftSolver<SI, BP, GEigsMode::ShiftInvert> s(op, Bop, P.nev, P.ncv, P.sigma); lib_run(s, "SymGEigsShiftSolver<ShiftInvert>/" + tag, P, calls, c); }
+        else { Spectra::SymGEigsShiftSolver<SI, BP, GEigsMode::Cayley> s(op, Bop, P.nev, P.ncv, P.sigma); lib_run(s, "SymGEigsShiftSolver<Cayley>/" + tag, P, calls, c); } }
+}
 static void lib_case(Ctx& c, Rng& r, int nmax) {
     Out& out = *c.out; const int mode = (int) (c.caseno % 5); Problem P = gen_problem(r, mode, nmax); if (P.sigkind == 9) { P.sigma = 1.2345; P.sigkind = 0; } derive(P);
     std::vector<Call> calls = gen_history(r, P.n, false); const int combo = (int) ((c.caseno / 5) % 4); const bool sa = combo & 1, sb = combo & 2;
@@ -310,6 +324,9 @@ static void lib_case(Ctx& c, Rng& r, int nmax) {
             Spectra::SparseRegularInverse<double> Bop(Bs);
             if (!sa) { DP op(P.A); Spectra::SymGEigsSolver<DP, Spectra::SparseRegularInverse<double>, GEigsMode::RegularInverse> s(op, Bop, P.nev, P.ncv); lib_run(s, "SymGEigsSolver<RegularInverse>/dense,sparse", P, calls, c); }
             else { SP op(As); Spectra::SymGEigsSolver<SP, Spectra::SparseRegularInverse<double>, GEigsMode::RegularInverse> s(op, Bop, P.nev, P.ncv); lib_run(s, "SymGEigsSolver<RegularInverse>/sparse,sparse", P, calls, c); }
+        } else if (((c.caseno / 20) % 3) != 0 && !sa && !sb) {   // dense/dense with mixed triangle options and garbage in the unused triangles
+            out.count("lib_mixed_uplo");
+            if (((c.caseno / 20) % 3) == 1) lib_shift_uplo<Eigen::Lower, Eigen::Upper>(P, calls, c, r); else lib_shift_uplo<Eigen::Upper, Eigen::Lower>(P, calls, c, r);
         } else if (mode == 3) {   // Bop = product with K = P.A (first matrix of the pencil), storage follows A
             if (!sa && !sb) lib_shift<Eigen::Dense, Eigen::Dense, Mat, Mat, DP, Mat>(P.A, P.B, P.A, "dense,dense", P, calls, c);
             else if (sa && !sb) lib_shift<Eigen::Sparse, Eigen::Dense, SpMat, Mat, SP, SpMat>(As, P.B, As, "sparse,dense", P, calls, c);
